@@ -108,26 +108,6 @@ theorem natToLeBytes_length : ∀ (k n : Nat), (natToLeBytes k n).length = k
 
 /-! ### one value -/
 
-def inI64v (i : Int) : Prop := -(2 ^ 63 : Int) ≤ i ∧ i < (2 ^ 63 : Int)
-
-/-- a value the format can hold and the reader hands back unchanged: integers in their 64-bit
-    ranges, strings valid UTF-8, lengths below 2^60 (the metadata word is a `u64` with a 4-bit
-    type), unknown type codes 10 … 15 -/
-def ScalarWF : Scalar → Prop
-  | .null => True
-  | .bool _ => True
-  | .int i => inI64v i
-  | .uint n => n < 2 ^ 64
-  | .f64 b => b < 2 ^ 64
-  | .str s => s.length < 2 ^ 60 ∧ validUtf8 s = true
-  | .bytes b => b.length < 2 ^ 60
-  | .counter i => inI64v i
-  | .timestamp i => inI64v i
-  | .unknown ty b => 10 ≤ ty ∧ ty < 16 ∧ b.length < 2 ^ 60
-
-instance (v : Scalar) : Decidable (ScalarWF v) := by
-  cases v <;> unfold ScalarWF inI64v <;> infer_instance
-
 theorem readBytes_append (a rest : Bytes) : readBytes (a ++ rest) a.length = some (a, rest) := by
   unfold readBytes
   have : ¬ (a ++ rest).length < a.length := by simp
